@@ -4,3 +4,4 @@ import OQuPyVerif.Props.C02
 import OQuPyVerif.Props.C04
 import OQuPyVerif.Model.Proto
 import OQuPyVerif.Model.ProtoQI
+import OQuPyVerif.Props.C06
